@@ -2226,3 +2226,15 @@ M('C09','ontwin-helper-tests-after-update','ads/map_impl.go',"""	if has, err = m
 		return false, ierrors.Wrap(err, "failed to check if key exists")
 	}
 """,'size/has-before-mutation', base='C09-22')
+M('C16','ontwin-start-reopens-section-in-the-other-mode','runtime/workerpool/workerpool.go',"""		w.mutex.Unlock()
+		w.ShutdownComplete.Wait()
+		w.mutex.Lock()
+""","""		w.mutex.Unlock()
+		w.ShutdownComplete.Wait()
+		w.mutex.RLock()
+""",'lock/', base='C16-22')
+M('C09','ontwin-helper-overwrites-membership-after-update','ads/map_impl.go',"""	return has, nil
+}""","""	has = false
+
+	return has, nil
+}""",'size/accounting', base='C09-22')
